@@ -239,6 +239,7 @@ type VLoop struct {
 	Crash string
 	Truth []byte // ground-truth content (concatenated files) for judging received blocks
 	PL    int64
+	TruthInfo []byte // the info dictionary behind a magnet link
 }
 
 type VLoopOpts struct {
@@ -470,6 +471,7 @@ type VEvent struct {
 	BadLen bool   // bitfield of the wrong length
 	HashOK bool   // write result
 	WErr   bool
+	A, B   int64 // extension handshake: metadata_size, has ut_metadata; metadata message: msg_type, total_size
 }
 
 // Classes of events PumpEx may take.
@@ -541,6 +543,7 @@ func (v *VLoop) PumpEx(d time.Duration, cls int) (e VEvent) {
 			e.MsgID, e.Index = 4, m.Index
 		case peerprotocol.BitfieldMessage:
 			e.MsgID = 5
+			e.Len = uint32(len(m.Data))
 			np := len(t.pieces)
 			e.BadLen = len(m.Data) != (np+7)/8
 			for i := 0; i < np && i/8 < len(m.Data); i++ {
@@ -563,6 +566,17 @@ func (v *VLoop) PumpEx(d time.Duration, cls int) (e VEvent) {
 			if m.RequestQueue > 0 && m.RequestQueue < 1<<30 {
 				e.Index = uint32(m.RequestQueue)
 			}
+			e.A = int64(m.MetadataSize)
+			if _, ok := m.M[peerprotocol.ExtensionKeyMetadata]; ok {
+				e.B = 1
+			}
+		case peerprotocol.ExtensionMetadataMessage:
+			e.MsgID = 21
+			e.A, e.B = int64(m.Type), int64(m.TotalSize)
+			e.Index, e.Len = m.Piece, uint32(len(m.Data))
+			lo := int64(m.Piece) * 16384
+			hi := lo + int64(len(m.Data))
+			e.Good = hi <= int64(len(v.TruthInfo)) && bytes.Equal(m.Data, v.TruthInfo[lo:hi])
 		}
 		v.guard(func() { t.handlePeerMessage(pm) })
 	case pe := <-discC:
@@ -700,6 +714,9 @@ type VSnapshot struct {
 	Downloaders int
 	Suspended   bool
 	Pending     []int // per peer: pending request count of its downloader (-1 none)
+	HasInfo     bool
+	InfoDl      []bool // per peer: has an info downloader
+	InfoSnubbed []bool
 }
 
 func (v *VLoop) peerIndex(pe *peer.Peer) int {
@@ -740,6 +757,10 @@ func (v *VLoop) Snapshot() VSnapshot {
 			pend = pd.PendingLen()
 		}
 		s.Pending = append(s.Pending, pend)
+		_, idl := t.infoDownloaders[pe]
+		_, isn := t.infoDownloadersSnubbed[pe]
+		s.InfoDl = append(s.InfoDl, idl)
+		s.InfoSnubbed = append(s.InfoSnubbed, isn)
 		s.Peers = append(s.Peers, ps)
 	}
 	if t.piecePicker != nil {
@@ -759,6 +780,7 @@ func (v *VLoop) Snapshot() VSnapshot {
 	s.NumPeers = len(t.peers)
 	s.Completed = t.completed
 	s.Downloaders = len(t.pieceDownloaders)
+	s.HasInfo = t.info != nil
 	s.Suspended = t.pieceMessagesC.ReceiveC() == nil
 	if t.session.ram != nil {
 		s.RamObjects = t.session.ram.Stats().AllocatedObjects
